@@ -1,6 +1,6 @@
 """C10 - filtering, projection, subsetting and set functions obey the collection algebra."""
 import copy, os
-from lib import driver as D, machine as M
+from lib import driver as D, machine as M, nodetrace as NT
 
 MUTANTS = ["takeOffByOne", "whereKeepsEmpty", "excludeSymmetric", "allIgnoresEmpty"]
 PARAMS = {"ModelFile": os.path.join(D.SPEC, "gen", "ModelResources.json"),
@@ -50,6 +50,9 @@ def run(ctx):
     keys = [(o["cs"]["f"], o["cs"]["shape"], o["cs"]["fn"], o["cs"]["a"], o["cs"]["b"], o["src"] if o["cs"]["shape"] == "sim" else "") for o in obs if o["out"]["k"] == "ok" and o["out"]["items"]]
     # programs of the whole abstract machine whose last step is one of this property's operations (lib/machine.py)
     verdicts = M.extend(ctx, verdicts, by_id)
+    # node-level trace validation (spec/FPNodeTrace.tla): subsetting, filtering and projection laws at every node, computed
+    # from the node's own input and its children's logged outcomes
+    verdicts = NT.extend(ctx, verdicts, by_id, reruns=[(binary, ["run", ctx.path("cases.ndjson"), ctx.path("obs_traced.ndjson")])])
     return D.finish(ctx, verdicts, by_id, evaluations=len(obs),
                     rule="13 foci (list-valued paths of MR1: complex, primitive, duplicate content, extensions, references, empty; and "
                          "environment collections) x {where, exists, where().exists(), all} x 16 criteria, select x 8 projections, "
